@@ -83,7 +83,7 @@ def fam_default(tier):
 
 def fam_radio(tier):
     names = ('n', 'm', '', None)
-    places = ('A', 'B', 'none', 'iframe')
+    places = ('A', 'B', 'none', 'iframe', 'nested')     # nested: a form inside form A (html.parser and the API keep such trees): its controls belong to it, not to A
     opts = [(nm, ch, pl) for nm in names for ch in (False, True) for pl in places]
     k = 2
     combos = list(itertools.product(opts, repeat=k)) + [(a,) for a in opts]
@@ -104,11 +104,12 @@ def fam_radio(tier):
         a.sort(key=lambda kv: order.index(kv[0]))
         return E('input', tuple(a))
     for combo in combos:
-        slot = {'A': [], 'B': [], 'none': [], 'iframe': []}
+        slot = {'A': [], 'B': [], 'none': [], 'iframe': [], 'nested': []}
         for nm, ch, pl in combo:
             slot[pl].append(radio(nm, ch))
         inner = E('html', (), E('body', (), E('form', (), *slot['iframe']), radio('n', False)))
-        yield ('radio', (E('html', (), E('body', (), E('form', (('id', 'A'),), *slot['A'], E('iframe', (), inner) if slot['iframe'] else E('span')),
+        nested = (E('div', (), E('form', (('id', 'N'),), *slot['nested'])),) if slot['nested'] else ()
+        yield ('radio', (E('html', (), E('body', (), E('form', (('id', 'A'),), *slot['A'], *nested, E('iframe', (), inner) if slot['iframe'] else E('span')),
                                           E('form', (('id', 'B'),), *slot['B']), *slot['none'], I(type='checkbox', indeterminate=''), I(type='checkbox'),
                                           E('progress'), E('progress', (('value', '1'),)))),))
 
@@ -249,6 +250,15 @@ def check_doc(sv, family, soup, namespaces=None):
         allids = set(by)
         if rw & ro or (rw | ro) != allids:
             out.append(('read-write-read-only-partition', f'both {names(rw & ro)} uncovered {names(allids - (rw | ro))}'))
+        # HTML: a control that is disabled (by its own attribute or through a disabled fieldset) or readonly is not mutable, hence never
+        # :read-write - unless the element is an editing host in its own right
+        hosts = {id(e) for e in els if H.has(e, 'contenteditable')}
+        di_ = q(':disabled')
+        if (rw & di_) - hosts:
+            out.append(('disabled-control-is-read-only', f'{names((rw & di_) - hosts)}'))
+        ro_attr = {id(e) for e in els if H.has(e, 'readonly') and H.name(e) in ('input', 'textarea')}
+        if (rw & ro_attr) - hosts:
+            out.append(('readonly-control-is-read-only', f'{names((rw & ro_attr) - hosts)}'))
         if q(':link') != q(':any-link'):
             out.append(('link-equals-any-link', f'{names(q(":link") ^ q(":any-link"))}'))
         want_link = {id(e) for e in els if H.name(e) in ('a', 'area') and H.has(e, 'href')}
